@@ -388,6 +388,15 @@ fn check_pair_inner(a: &Ser, b: &Ser, dir: &Path, tag: &str, sample: bool, out: 
     out.count("lookups_present_found", st.present_found);
     out.count("vac:refused_8_colliding_prefixes", st.refused);
     out.count("vac:lookups_past_colliding_prefix", st.past_collision);
+    // two inputs that each stay within the reader's limit of seven records per truncated key, a union that does not:
+    // the operation succeeds and every record of that key is beyond retrieval (the reader refuses the eighth) - C10
+    // says "every record stays retrievable" and names prefix collisions without a bound
+    if st.refused > 0 && max_run(&a.model) <= 7 && max_run(&b.model) <= 7 {
+        fails.push((
+            "C10/union-record-not-retrievable@8-records-share-a-truncated-key".into(),
+            format!("the inputs hold at most {} and {} records per truncated key, the union {mr}: {} lookups of stored records are refused with a truncated-hash collision error", max_run(&a.model), max_run(&b.model), st.refused),
+        ));
+    }
     if !(want_u.is_empty()) {
         out.distinct(format!("pair:{}", vcore::util::hex(&blake3::hash(&[&a.bytes[..], &b.bytes[..]].concat()).as_bytes()[..8])));
     }
